@@ -110,4 +110,51 @@ theorem binomGo_exact (n nk : Nat) (hnk : 2 * nk ≤ n) (hfit : n.choose nk < 2 
     rw [if_neg hguard, if_neg hnov, hstep]
     exact ih (k + 1) (by omega)
 
+/-- Whatever the size of `C(n,nk)`: if the loop started at step `k+1` with `c = C(n,k)` returns a value, that value is
+`C(n,nk)`: a value that does not fit is always stopped by the guard or by an overflow check. -/
+theorem binomGo_val_imp (n nk : Nat) (hnk : nk ≤ n) :
+    ∀ steps k v, k + steps = nk → binomGo n nk steps (k + 1) (n.choose k) = .val v → v = n.choose nk := by
+  intro steps
+  induction steps with
+  | zero =>
+    intro k v hk h
+    simp only [Nat.add_zero] at hk; subst hk
+    simp only [binomGo, BinomOut.val.injEq] at h
+    exact h.symm
+  | succ s ih =>
+    intro k v hk h
+    have hm : n - (k + 1) + 1 = n - k := by omega
+    rw [binomGo] at h
+    dsimp only at h
+    rw [hm] at h
+    split at h
+    · cases h
+    · split at h
+      · cases h
+      · rw [step_exact n k] at h
+        exact ih (k + 1) v (by omega) h
+
+/-- ... and that value fits in 64 bits (the last update passed its overflow checks). -/
+theorem binomGo_val_fits (n nk : Nat) (hnk : nk ≤ n) :
+    ∀ steps k v, k + steps = nk → n.choose k < 2 ^ 64 → binomGo n nk steps (k + 1) (n.choose k) = .val v → v < 2 ^ 64 := by
+  intro steps
+  induction steps with
+  | zero =>
+    intro k v hk hc h
+    simp only [binomGo, BinomOut.val.injEq] at h
+    omega
+  | succ s ih =>
+    intro k v hk hc h
+    have hm : n - (k + 1) + 1 = n - k := by omega
+    rw [binomGo] at h
+    dsimp only at h
+    rw [hm] at h
+    split at h
+    · cases h
+    · split at h
+      · cases h
+      · rename_i hnov
+        rw [step_exact n k] at h hnov
+        exact ih (k + 1) v (by omega) (by unfold u64Max at hnov; omega) h
+
 end Cv.C17
